@@ -2674,10 +2674,26 @@ class PGPKey(Armorable, ParentRef, PGPObject):
 
         # the primary key that user ids, subkeys and their signatures currently attach to
         primary = None
+        # True from a primary key packet that was not understood up to the next primary key packet
+        skipping = False
 
         while True:
-            for group in iter(group for _, group in itertools.groupby(getpkt, key=pktgrouper()) if not _.endswith('Opaque')):
+            for _, group in itertools.groupby(getpkt, key=pktgrouper()):
                 pkt = next(group)
+
+                if isinstance(pkt, Opaque):
+                    # a packet that was not understood is left out, along with the signatures on it. When it is a
+                    # primary key (of an unknown version), the user ids and subkeys after it are that key's, not
+                    # those of the key parsed before it
+                    if pkt.header.tag in (PacketTag.PublicKey, PacketTag.SecretKey):
+                        skipping = True
+                    continue
+
+                if isinstance(pkt, Primary) and not isinstance(pkt, Sub):
+                    skipping = False
+
+                if skipping:
+                    continue
 
                 # deal with pkt first
                 if isinstance(pkt, Key):
